@@ -31,8 +31,6 @@ var boundsTable = map[string]tabEntry{
 		"non-batch mode: parseRequest builds exactly one request when IsBatchMode is false and the accumulator is made with len(rs.Requests)"},
 	"pebbles.(*Gateway).queryHandler$2/‹pebbles.Results›[‹*pebbles.Result›.index]": {1,
 		"acc is made with len(rs.Requests); index is the closure parameter drawn from lo.Range(len(rs.Requests)) and is carried by every returned Result (rule R13h)"},
-	"queryer.(*MultiOpQueryer).Query$1/‹[]*requests.Request›[‹int›*‹*queryer.MultiOpQueryer›.maxBatchSize:]": {1,
-		"chunk arithmetic: i < chunks = lInputs/m+1 so i*m <= lInputs (hand argument; C11 does not claim the arithmetic)"},
 	"queryer.(*MultiOpQueryer).Query$1/‹[]*requests.Request›[‹int›*‹*queryer.MultiOpQueryer›.maxBatchSize:(‹int›+1)*‹*queryer.MultiOpQueryer›.maxBatchSize]": {1,
 		"taken only when (i+1)*m <= lInputs (else-branch of the test above)"},
 	"queryer.(*MultiOpQueryer).Query$2/‹[]map[string]interface{}›[(‹*queryer.chunkResponse›.Index+1)*‹*queryer.MultiOpQueryer›.maxBatchSize:]": {1,
